@@ -12,7 +12,7 @@ import numpy as np
 
 from .. import tgen, tprog
 
-LEAN_TARGETS = ["YProofs.Props.C01", "YProofs.Props.C01Dot", "YProofs.Props.C01DotGen", "YProofs.Props.C01Vdot", "YProofs.Props.C01Trace"]
+LEAN_TARGETS = ["YProofs.Props.C01", "YProofs.Props.C01Dot", "YProofs.Props.C01DotGen", "YProofs.Props.C01Vdot", "YProofs.Props.C01Trace", "YProofs.Props.C01Broadcast"]
 LEVEL = "proof"
 TRANSLATORS = ["gen_sym"]
 DRIVER = "drv_c01"
@@ -104,6 +104,8 @@ def run_one(ctx, gen_kwargs, depth, check_access=True, tag="c01"):
     nontrivial = False
     for k, st in enumerate(g.steps):
         ctx.count(f"op:{st.opname}")
+        if st.model.get("f") not in ("input", "opaque", "id", "pad"):
+            ctx.count(f"modelled-step:{st.model.get('f')}")   # executed by the Lean model (not a re-synchronised input)
         ro = tprog.real_obs(g, st)
         if st.malformed:
             ctx.count("malformed")
